@@ -787,7 +787,22 @@ class Engine:
             if op == "PtrMetadata":
                 l, lo, hi = self.seq_of(a); return Int(64, 0, hi - lo)
         if k == "agg":
-            return Agg([self.operand(fr, o) for o in rv[3]], None, rv[1])
+            ops = list(rv[3])
+            if rv[1].startswith("{closure@") and ops:
+                need = self._closure_captures(rv[1])
+                if need > len(ops):
+                    # rustc's MIR printer names captures by root variable and drops the operands of further precise
+                    # captures of the same variable ("{ task: move _677 }" for 3 captures): recover them — at
+                    # mir-opt-level 0 the capture operands are consecutive temporaries assigned just before.
+                    if len(ops) != 1 or ops[0][0] not in ("move", "copy") or ops[0][2] or not re.fullmatch(r"_\d+", ops[0][1]):
+                        raise Unsupported(f"closure {rv[1]} uses {need} captures, MIR prints {len(ops)}")
+                    base = int(ops[0][1][1:])
+                    ops = [("move", f"_{base + i}", ()) for i in range(need)]
+                    for o in ops:
+                        if o[1] not in fr.loc or fr.loc[o[1]].v is None:
+                            raise Unsupported(f"closure {rv[1]}: capture operand {o[1]} not available")
+                    self.notes["closure_capture_recovery"] = "precise captures dropped by the MIR printer were recovered from consecutive temporaries"
+            return Agg([self.operand(fr, o) for o in ops], None, rv[1])
         if k == "adt":
             return self.adt(fr, rv[1], [self.operand(fr, o) for o in rv[2]])
         if k == "discr":
@@ -807,6 +822,21 @@ class Engine:
             nv = int(n) if n.isdigit() else self.const_value(n.replace("const ", ""), fr).v
             return Agg([copy_val(ev) for _ in range(nv)], ty="array")
         raise Unsupported("rvalue " + str(rv))
+
+    def _closure_captures(self, cid):
+        c = self.__dict__.setdefault("_clo_caps", {})
+        if cid not in c:
+            f = self.p.closures.get(cid)
+            n = 0
+            if f is not None:
+                if f.lines is not None:
+                    self.p.parse_body(f)
+                txt = "\n".join(t for b in f.raw.values() for t in b) + "\n" + "\n".join(getattr(f, "header_lines", []) or [])
+                byref = f.args and f.args[0][1].startswith("&")
+                idx = [int(x) for x in re.findall(r"\(\*_1\)\.(\d+):" if byref else r"\(_1\.(\d+):", txt)]
+                n = max(idx) + 1 if idx else 0
+            c[cid] = n
+        return c[cid]
 
     def adt(self, fr, path, fields):
         """Struct literal or enum variant constructor."""
@@ -926,19 +956,22 @@ class Engine:
             self.steps += len(stmts) + 1
             if self.steps > self.max_steps:
                 raise BudgetExceeded(f"step budget {self.max_steps} exceeded in {f.name}")
-            for st in stmts:
-                if st[0] == "assign":
-                    val = self.rvalue(fr, st[3])
-                    if st[2]:
-                        c, p = self.resolve(fr, st[1], st[2]); self.write(c, p, val)
-                    else:
-                        loc[st[1]].v = val
-                elif st[0] == "setdiscr":
-                    c, p = self.resolve(fr, st[1], st[2]); v = self.read(c, p)
-                    if isinstance(v, Agg):
-                        v.variant = st[3]
-                    else:
-                        self.write(c, p, Agg([], st[3], "enum"))
+            try:
+                for st in stmts:
+                    if st[0] == "assign":
+                        val = self.rvalue(fr, st[3])
+                        if st[2]:
+                            c, p = self.resolve(fr, st[1], st[2]); self.write(c, p, val)
+                        else:
+                            loc[st[1]].v = val
+                    elif st[0] == "setdiscr":
+                        c, p = self.resolve(fr, st[1], st[2]); v = self.read(c, p)
+                        if isinstance(v, Agg):
+                            v.variant = st[3]
+                        else:
+                            self.write(c, p, Agg([], st[3], "enum"))
+            except (IndexError, AttributeError, TypeError, KeyError) as ex:
+                raise Unsupported(f"engine error {ex!r} at statement {st!r} [in {f.crate}:{f.name} {bb}]")
             k = term[0]
             if k == "goto":
                 bb = term[1]
